@@ -148,6 +148,7 @@ class Pair(object):
 
 ODD = [0]       # converters found by the last discover() but left out because of their signature (they count as anchors that exist)
 ODD_M = [0]
+ODD_PAIRS = []
 
 
 def discover(m, F, run=None, rule=None):
@@ -163,6 +164,7 @@ def discover(m, F, run=None, rule=None):
     pairs = []
     ODD[0] = 0
     ODD_M[0] = 0
+    del ODD_PAIRS[:]
     for key, C in sorted(conv.items()):
         # the scenes drive a converter as (unit* dest, const unit* src, size_t size, ...): any other signature (a cursor handed over
         # by reference, an extra leading parameter) is not interpreted with arguments it was not written for
@@ -173,6 +175,7 @@ def discover(m, F, run=None, rule=None):
                        disc='signature', loc='%s:%d' % (C.file, C.line))
             ODD[0] += 1
             ODD_M[0] += 1 if meas.get(key) is not None else 0
+            ODD_PAIRS.append(Pair(key[0], key[1], C, meas.get(key)))
             continue
         pairs.append(Pair(key[0], key[1], C, meas.get(key)))
     return pairs
